@@ -4,7 +4,6 @@ import (
 	"fmt"
 	"math/rand"
 	"sort"
-	"strings"
 
 	"github.com/richardmorrey/flap/pkg/model"
 )
@@ -61,24 +60,10 @@ func drawSeeds(tw int64, rng *Rng, exhaustive bool, samples int) map[int64]int64
 
 func runC19(o *Out, rng *Rng, tier string, replay string) {
 	ncases := 250
-	perFile := 16
 	if tier == "thorough" || tier == "search" {
 		ncases = 4000
-		perFile = 250
 	}
 	o.sum.Rule = "case = random building sequence (add / addIndexWeight / addMultiple / reset) over weights in {0,1,small,large} followed by find() at every cumulative boundary +-1 and choose() under every possible draw (total <= 96, draw learnt by re-seeding math/rand) or 24 sampled draws; non-trivial = at least 2 entries, a zero or unit weight present and at least one choose observed; distinct by hash of the operation list"
-	var items []string
-	fileNo := 0
-	flush := func() {
-		if len(items) == 0 {
-			return
-		}
-		o.WriteCases(fmt.Sprintf("C19_%03d", fileNo),
-			"From Coq Require Import ZArith List.\nFrom Flap Require Import Run.RunWeights.\nImport ListNotations.\nOpen Scope Z_scope.",
-			"list (list wop)", items, "wmismatches 0%nat")
-		fileNo++
-		items = nil
-	}
 	caseNo := 0
 	for c := 0; c < ncases; c++ {
 		var ops []c19op
@@ -215,15 +200,11 @@ func runC19(o *Out, rng *Rng, tier string, replay string) {
 		}
 		nontrivial := len(sc) >= 2 && hasSmall && chooses > 0
 		o.Count(fmt.Sprintf("entries_%s", bucket(len(sc))))
-		id := fmt.Sprintf("C19_%03d/%d", fileNo, len(items))
-		o.Case(id, strings.Join(coq, ";"), nontrivial, ops)
-		items = append(items, List(coq))
+		o.AddCase(List(coq), nontrivial, ops)
 		caseNo++
-		if len(items) >= perFile {
-			flush()
-		}
 	}
-	flush()
+	o.FlushCases("C19", "From Coq Require Import ZArith List.\nFrom Flap Require Import Run.RunWeights.\nImport ListNotations.\nOpen Scope Z_scope.",
+		"list (list wop)", "wmismatches 0%nat", 16)
 }
 
 func bucket(n int) string {
